@@ -42,3 +42,11 @@ print('|---|---|---|---|---|---|')
 for p in sorted(glob.glob(V+'/seeded/*/meta.json')):
     m=json.load(open(p)); c=m['checked']
     print('| %s | %s | %s | %s | %s | %s |'%(m['id'],m['change'].replace('|','\\|'),m['needs_to_manifest'].replace('|','\\|'),c.get('first_run','CAUGHT'),c['rule'],c.get('strengthening','—')))
+print()
+print('<!-- BENIGN-TABLE-BEGIN -->')
+print('| refactoring | what it does | first run | rules that alarmed | today |')
+print('|---|---|---|---|---|')
+for p in sorted(glob.glob(V+'/benign/*/meta.json')):
+    m=json.load(open(p))
+    print('| %s | %s | %s | %s | %s |'%(m['id'],m['what'].replace('|','\\|'),m['first_run'],' '.join(m['first_run_rules']) or '—',m['now']))
+print('<!-- BENIGN-TABLE-END -->')
